@@ -3,7 +3,7 @@
 (* case generator (GenMatch): the enumerated patterns (keyword lexicon x    *)
 (* mandatory/optional x plain/numeric x query flag, and the shipped list)   *)
 (* and, per pattern, the header neighbourhood: every accepted spelling and  *)
-(* every single mutation of one.                                            *)
+(* every single mutation of a base spelling (short/long form, one digit).   *)
 EXTENDS ScpiMatch, MatchShipped, SequencesExt
 
 K1 == <<65, 66, 67, 100>>    \* ABCd
@@ -42,12 +42,17 @@ NearMiss(k, i, others) ==
            ELSE {S \o <<49>>, L \o <<50, 51>>})
      \cup others
 
-(* spellings: sequences of <<keyword index, mnemonic>> *)
-RECURSIVE SpellSeqs(_, _)
-SpellSeqs(kws, i) ==
+(* the spellings that are mutated: short or long form, a suffix only as one digit on the short form *)
+BaseForms(k, i) == LET S == UpSeq(ShortForm(k.name))
+                       L == LongForm(k.name)
+                   IN {S, L} \cup (IF k.num THEN {S \o Digits1(i)} ELSE {})
+
+(* spellings: sequences of <<keyword index, mnemonic>>; all = TRUE: every accepted form, FALSE: base forms *)
+RECURSIVE SpellSeqs(_, _, _)
+SpellSeqs(kws, i, all) ==
   IF i > Len(kws) THEN {<<>>}
-  ELSE LET rest == SpellSeqs(kws, i + 1)
-           with == {<< <<i, f>> >> \o r : f \in Forms(kws[i], i), r \in rest}
+  ELSE LET rest == SpellSeqs(kws, i + 1, all)
+           with == {<< <<i, f>> >> \o r : f \in (IF all THEN Forms(kws[i], i) ELSE BaseForms(kws[i], i)), r \in rest}
        IN IF kws[i].opt THEN with \cup rest ELSE with
 
 MutantsAt(sp, kws, others) ==
@@ -68,9 +73,8 @@ OtherWords(kws, extra) == UNION {KwForms(kws[i]) : i \in 1..Len(kws)} \cup extra
 (* the headers tried against pattern (kws, query) *)
 CasesOf(kws, query, extra) ==
   LET others == OtherWords(kws, extra)
-      sps  == SpellSeqs(kws, 1)
-      good == {Join(sp) : sp \in sps}
-      bad  == UNION {{Join(m) : m \in MutantsAt(sp, kws, others)} : sp \in sps}
+      good == {Join(sp) : sp \in SpellSeqs(kws, 1, TRUE)}
+      bad  == UNION {{Join(m) : m \in MutantsAt(sp, kws, others)} : sp \in SpellSeqs(kws, 1, FALSE)}
       q    == IF query THEN <<QMARK>> ELSE <<>>
       nq   == IF query THEN <<>> ELSE <<QMARK>>
   IN (UNION {{b \o q, <<COLON>> \o b \o q, b \o nq, <<COLON>> \o LoSeq(b) \o nq, LoSeq(b) \o q, <<COLON>> \o LoSeq(b) \o q,
